@@ -1,5 +1,5 @@
 """C18 — Build events and target output follow a well-formed protocol."""
-from checks.engine_common import run_engine, run_linewriter
+from checks.engine_common import run_engine, run_linewriter, run_renderers
 
 META = {
     "property_id": "C18",
@@ -14,3 +14,4 @@ def run(ctx):
     run_engine(ctx, "C18", "Build/Props_C18.v", ["C18 ", "C04 "], 6,
                "Oracle: per-label event shape, run-done once and last with Run's error, output lines delivered once, in order, inside the evaluating window, evaluating iff the body runs.")
     run_linewriter(ctx)
+    run_renderers(ctx)
